@@ -3,6 +3,8 @@
 cd /verif
 ./setup_env.sh || { echo "HARNESS-ERROR: environment setup failed"; exit 3; }
 export PYTHONHASHSEED=0 PYTHONPATH=/verif PYTHONDONTWRITEBYTECODE=1 PYTHONWARNINGS=ignore
+# seed regression only (tools/regress_seeds.sh): analyse a scratch worktree instead of /repo
+[ -n "$VERIF_REPO" ] && export PYTHONPATH=$VERIF_REPO/src:/verif
 if [ "$1" = "--replay" ]; then
   exec /verif/.venv/bin/python -m vf.replay "$2"
 fi
